@@ -50,6 +50,8 @@ GROUP = {"backoff_delay": "Recon", "should_attempt_reconnect": "Recon", "record_
          "reg_handle_reg2": "Reg",
          "trk_insert": "Trk", "trk_get": "Trk",
          "crit_extend_to": "Crit", "crit_is_critical_now": "Crit",
+         "cc_loss_permille": "Cc", "cc_update_backoff_efficacy": "Cc", "cc_observe_traffic": "Cc",
+         "cc_pick_climb_mode": "Cc", "cc_update_rtt_min": "Cc",
          "regime_from_bps": "Batch", "regime_batch_size": "Batch", "batch_queue_packet": "Batch",
          "batch_set_regime": "Batch", "conn_recompute_batch_regime": "Batch"}
 # groups with a canonical signature: parameters = the self fields read in struct declaration order, then the
@@ -59,7 +61,7 @@ GROUP = {"backoff_delay": "Recon", "should_attempt_reconnect": "Recon", "record_
 # two same-typed arguments of a wrapper can move a parameter under the lemma that applies it by position.
 CANONICAL_GROUPS = {"Stall", "Recov", "Cfg", "Reg", "Trk", "Batch", "Crit", "Cc", "Cls"}
 # groups whose definitions may use f64 values (header additionally imports Floats, FConstants, Select)
-FLOAT_GROUPS = {"Stall", "Recov", "Batch"}
+FLOAT_GROUPS = {"Stall", "Recov", "Batch", "Cc"}
 CORE = "crates/srtla-core/src/"
 
 # (coq name, file, impl type or None for a free fn, fn name)
@@ -116,6 +118,12 @@ LEAVES = [
     ("batch_queue_packet", CORE + "connection/batch_send.rs", "BatchSender", "queue_packet"),
     ("batch_set_regime", CORE + "connection/batch_send.rs", "BatchSender", "set_regime"),
     ("conn_recompute_batch_regime", CORE + "connection/mod.rs", "SrtlaConnection", "recompute_batch_regime"),
+    # per-link congestion controller (C16): the integer / comparison helpers around tick()
+    ("cc_loss_permille", CORE + "selection/link_cc.rs", "LinkCongestionState", "loss_permille"),
+    ("cc_update_backoff_efficacy", CORE + "selection/link_cc.rs", "LinkCongestionState", "update_backoff_efficacy"),
+    ("cc_observe_traffic", CORE + "selection/link_cc.rs", "LinkCongestionState", "observe_traffic"),
+    ("cc_pick_climb_mode", CORE + "selection/link_cc.rs", "LinkCongestionState", "pick_climb_mode"),
+    ("cc_update_rtt_min", CORE + "selection/link_cc.rs", "LinkCongestionState", "update_rtt_min"),
 ]
 
 # leaves whose equivalence lemma mentions leaf_<name>_asserts: the definition is emitted even when the
@@ -136,7 +144,7 @@ OPAQUE_FNS = {"create_reg1_packet": "bytes", "create_reg2_packet": "bytes"}
 # methods of self that are not translated and may change any part of self: allowed only as the LAST effect
 # of a path (followed by nothing or a bare `return;`); the call and its arguments become an explicit output
 # `call_<name> : option (args)` (None on the paths that do not call it)
-OPAQUE_EFFECTS = {("SrtlaRegistrationManager", "handle_probe_response")}
+OPAQUE_EFFECTS = {("SrtlaRegistrationManager", "handle_probe_response"), ("LinkCongestionState", "record_loss")}
 FIELD_PATHS = {}
 REGISTRY = {}   # rust method name -> {coq, origins, outs, rtype} of already translated leaves
 
@@ -882,7 +890,7 @@ def ev(e, env):
         base = n.split("::")[-1]
         if n.endswith("::MAX") or n.endswith("::MIN"):
             ty = n.split("::")[0]
-            tab = {"i32::MIN": "i32_min", "i32::MAX": "i32_max", "u64::MAX": "u64_max"}
+            tab = {"i32::MIN": "i32_min", "i32::MAX": "i32_max", "u64::MAX": "u64_max", "u32::MAX": "(two32 - 1)"}
             if n in tab:
                 return tab[n], ty
         if "::" in n:
@@ -935,6 +943,10 @@ def ev(e, env):
             if t in ("u32", "u8", "u16", None) or ty == t or (t == "usize" and ty == "u64") or (t == "u32" and ty in ("u64", "usize", "i64")):
                 return s, ty
             if t == "i32" and ty == "i64":
+                return s, ty
+            if ty == "u32" and t in ("u64", "usize", "i32", "i64"):
+                return "(%s mod two32)" % s, ty          # `as u32` keeps the low 32 bits (two's complement for a negative value)
+            if ty in ("u64", "usize") and t in ("u64", "usize"):
                 return s, ty
             raise TErr("cast %s as %s" % (t, ty))
         raise TErr("cast to %s" % ty)
@@ -1086,6 +1098,9 @@ def ev(e, env):
             return nm, "bool"
         sr, tr = ev(recv, env)
         sargs = [ev(a, env) for a in args]
+        if name == "is_finite" and not args and tr == "f64":
+            ctx.uses_float = True
+            return "(PrimFloat.is_finite %s)" % sr, "bool"
         if name in ("min", "max") and "f64" in (tr, sargs[0][1]):
             if not (tr in ("f64", None) and sargs[0][1] in ("f64", None)):
                 raise TErr("f64 %s on %s and %s" % (name, tr, sargs[0][1]))
